@@ -619,6 +619,7 @@ func (prop) Execute(scAny any, phase string, log *core.Log) core.Result {
 	reps := make([]*geom.Bounds, len(s.Deliveries))
 	models := make([]box, len(s.Deliveries))
 	var snaps []*geom.Bounds
+	var snapModels []box
 	firstOrders := make([]string, len(s.Deliveries))
 	dupAfterData := false
 	for k, del := range s.Deliveries {
@@ -667,7 +668,9 @@ func (prop) Execute(scAny any, phase string, log *core.Log) core.Result {
 				return res
 			}
 			if step == len(del)/2 {
+				// a copy of the box as it is now: a value of its own from here on
 				snaps = append(snaps, b.Clone())
+				snapModels = append(snapModels, models[k])
 			}
 		}
 		// every message must have been delivered
@@ -679,6 +682,24 @@ func (prop) Execute(scAny any, phase string, log *core.Log) core.Result {
 		}
 		reps[k] = b
 		firstOrders[k] = strings.Join(first, ",")
+	}
+	// the copies taken half way are still what they were, whatever was delivered
+	// to the replicas they were taken from afterwards; and extending a copy
+	// does not reach the replica
+	for i, sb := range snaps {
+		if d := compare(sb, snapModels[i]); d != "" {
+			res.Fail("copy-follows-original", "copy-follows-original", "a Clone() taken of a replica half way through its deliveries changed while the replica went on: %s; copy now %s", d, describeBounds(sb))
+			return res
+		}
+	}
+	if len(snaps) > 0 && len(reps) > 0 && len(geoms) > 0 {
+		before := describeBounds(reps[0])
+		c := reps[0].Clone()
+		core.Guard(func() { c.Extend(geom.NewPointFlat(geom.XY, []float64{-9e15, 9e15})) })
+		if after := describeBounds(reps[0]); after != before {
+			res.Fail("copy-follows-original", "original-follows-copy", "extending a Clone() of replica 0 changed the replica from %s to %s", before, after)
+			return res
+		}
 	}
 	// quiescence: all replicas agree
 	for k := 1; k < len(reps); k++ {
